@@ -50,6 +50,18 @@ def attach_hierarchy(base, name, **kw):
     return out
 
 
+SUSPENDED = [0]      # > 0: every monitor steps aside (the failpoint histories provoke their failures themselves)
+
+
+class suspended:
+    def __enter__(self):
+        SUSPENDED[0] += 1
+
+    def __exit__(self, *exc):
+        SUSPENDED[0] -= 1
+        return False
+
+
 def attach(owner, name, pre=None, post=None, label=None, also=(), around=None, _mon=None):
     """Attach a monitor to owner.name; `also` lists (module, attr) namespaces that
     imported the same function by name and must be rebound too.
@@ -67,7 +79,7 @@ def attach(owner, name, pre=None, post=None, label=None, also=(), around=None, _
 
     @functools.wraps(raw)
     def wrapper(*a, **k):
-        if mon.depth:
+        if mon.depth or SUSPENDED[0]:
             return raw(*a, **k)
         mon.depth += 1
         if around is not None:
